@@ -396,5 +396,5 @@ LEVEL_TEXT = ("Machine-checked Lean 4 theorems, for all integers (no size bound)
               "1-40 steps feeding results back).")
 LEVEL_NOTE = ("Trusted: Lean kernel; axioms propext/Classical.choice/Quot.sound; the correspondence harness and generators "
               "(sampling) for the tie model<->code; dashu-int kernels (gcd, mul, div, shifts, trailing_zeros) are taken at their "
-              "contracts here and are the subject of C01/C02/C09/C12. Known finding: Inverse of zero returns 1/0 instead of panicking.")
+              "contracts here and are the subject of C01/C02/C09/C12.")
 TECHNIQUE = "Lean 4 refinement proofs over Int/Nat gcd theory (Mathlib IsCoprime) + differential correspondence model vs real code"
